@@ -78,7 +78,7 @@ impl Future for Tracked {
         let me = unsafe { self.get_unchecked_mut() };
         let id = me.id;
         // the body asks the mock host about the context slot of the task it runs in
-        host::with(|h| {
+        let runaway = host::with(|h| {
             let t = h.cur_task;
             *h.checks.entry("context-slot-empty-while-body-runs").or_insert(0) += 1;
             let task = &h.tasks[t as usize];
@@ -86,7 +86,14 @@ impl Future for Tracked {
                 h.log.push(Ev::Mon { task: t, key: "ctx-set-in-body", a: id as u64, b: 0 });
             }
             h.log.push(Ev::Mon { task: t, key: "work.poll", a: id as u64, b: 0 });
+            h.log.len() > 80_000
         });
+        if runaway {
+            // an executor that never stops polling (only reachable with a broken
+            // runtime inside `block_on`, where no driver step limit applies)
+            host::with(|h| h.trap(host::TrapKind::Runaway, "more than 80000 events in one execution".into()));
+            panic!("rt-host: runaway execution, the body is being polled without end");
+        }
         let Some(fut) = me.fut.as_mut() else {
             mon("work.poll-after-completion", id as u64, 0);
             return Poll::Ready(());
